@@ -43,6 +43,37 @@ def showShare (p : ShareType × ShareResult) : String :=
   let r := p.2
   s!"{showErr r.raised}/{if r.share.present then 1 else 0}/{showLeases r.share.leases}/{r.wks.1}.{r.wks.2.1}.{r.wks.2.2}/{r.numLeases}"
 
+def parseOptBool (t : String) : Option (Option Bool) :=
+  if t == "-" then some none else match t.toList with | [c] => (parseBit c).map some | _ => none
+
+def parseOptInt (t : String) : Option (Option Int) :=
+  if t == "-" then some none else t.toInt?.map some
+
+def showMode : Mode → String
+  | .age none => "age override=None cutoff=None"
+  | .age (some o) => s!"age override={o} cutoff=None"
+  | .cutoff d => s!"cutoff-date override=None cutoff={d}"
+
+def showTypes (c : Config) : String :=
+  let l := (if c.expImmutable then ["immutable"] else []) ++ (if c.expMutable then ["mutable"] else [])
+  if l.isEmpty then "-" else ",".intercalate l
+
+/-- `cfg <enabled -|0|1> <mode -|name> <override -|secs> <cutoff -|epoch> <immutable -|0|1> <mutable -|0|1>` -/
+def handleCfg : List String → String
+  | [en, mode, ov, cut, imm, mu] =>
+    match (do
+      let s : Settings := { enabled := (← parseOptBool en), mode := (if mode == "-" then none else some mode),
+                            overrideDuration := (← parseOptInt ov), cutoffDate := (← parseOptInt cut),
+                            immutable := (← parseOptBool imm), mutable := (← parseOptBool mu) }
+      pure (match configFromSettings s with
+        | .error .missingMode => "error:missing-mode"
+        | .error .missingCutoff => "error:missing-cutoff"
+        | .error .badMode => "error:bad-mode"
+        | .ok c => s!"enabled={if c.enabled then "True" else "False"} mode={showMode c.mode} types={showTypes c}")) with
+    | some out => out
+    | none => "bad-op"
+  | _ => "bad-op"
+
 def handle : List String → String
   | "gc" :: en :: mode :: types :: now :: shares =>
     match (do
@@ -57,6 +88,7 @@ def handle : List String → String
             ++ " | raised=" ++ (if b.raised then "1" else "0"))) with
     | some out => out
     | none => "bad-op"
+  | "cfg" :: rest => handleCfg rest
   | _ => "bad-op"
 
 def main : IO Unit := mainLoop handle
